@@ -210,3 +210,34 @@ def statement_kind_tuples(maxlen=3):
                     code, exp = f.build()
                     # in unstructured mode (or under no-kvp) the key-value kinds are simply statements without a message reference
                     yield gen.cfg_index(0, style), code, ("stmt-kinds", (combo, dirs), exp)
+
+
+def cross_feature_product():
+    """directive x target x key-values x eol x layout x second statement on the same line x position in the file x style: the full
+    product of the features that individually have their own check, so that their interactions are covered too."""
+    import itertools
+    dirs = ["", "// breadlog:ignore\n", "/* breadlog:no-kvp */\n"]
+    targets = [None, '"t"']
+    kvss = [[], ["a = 1"], ["ref = 5"], ["ref = x"]]
+    for d, tg, kvs, crlf, multi, second, pos, style in itertools.product(range(3), targets, kvss, (False, True), (False, True),
+                                                                         (False, True), ("first", "middle", "last"), (False, True)):
+        f = gen.File(style)
+        if pos != "first":
+            f.raw("fn before() { let _x = 1; }\n")
+        f.raw(dirs[d])
+        fill = {"*": "\n        "} if multi else {}
+        st = gen.Stmt(target=tg, kvs=kvs, msg="m {}", trailing=", 1", fill=fill)
+        f.stmt(st, ignored=(d == 1), no_kvp=(d == 2))
+        f.raw(";")
+        if second:
+            f.raw(" ")
+            st2 = gen.Stmt(macro=("log", "warn"), msg="second on the same line")
+            # a statement that starts on the same line as the first shares its directive
+            f.stmt(st2, ignored=(d == 1 and not multi), no_kvp=(d == 2 and not multi))
+            f.raw(";")
+        if pos == "middle":
+            f.raw("\nfn after() {}\n")
+        elif pos == "first":
+            f.raw("\n")
+        code, exp = f.build(crlf=crlf)
+        yield gen.cfg_index(0, style), code, ("cross", (d, tg, tuple(kvs), crlf, multi, second, pos), exp)
